@@ -50,6 +50,9 @@ func runOcspWalk(c *vk.Ctx, cfg OcspCfg, walk []*graph.Edge, seed int64, preds .
 		case "flip":
 			w.flip(op[1].(string))
 			hist = append(hist, ocspStep{Op: e.Op})
+		case "switch":
+			w.switchLists(op[1].(string))
+			hist = append(hist, ocspStep{Op: e.Op})
 		case "query":
 			v, cert := op[1].(string), op[2].(string)
 			// unauthentic answers claim the status that would change the verdict if they were believed
@@ -242,7 +245,7 @@ func predC05(c *vk.Ctx, o *ocspObs) {
 	}
 }
 
-var c05NoAnswer = []string{"stranger", "strangerEmbedded", "ownCert", "delegNoEku", "sibling", "otherSerial", "errStatus", "http500", "garbage", "wrongContent"}
+var c05NoAnswer = []string{"stranger", "strangerEmbedded", "ownCert", "ownCertBare", "delegNoEku", "delegNoEkuBare", "sibling", "otherSerial", "errStatus", "http500", "garbage", "wrongContent"}
 
 // C05 — OCSP authenticity.
 func C05(c *vk.Ctx) {
@@ -260,21 +263,40 @@ func C05(c *vk.Ctx) {
 			}
 		}
 	}
-	gs, res := exportOcspGraphs(c, cfgs, 0, 2, "absolute", "issuer")
+	// histories: an unauthorised key first answers with its certificate embedded, later (or at the next responder) without it
+	for _, strict := range []bool{false, true} {
+		for _, dur := range []int{0, 2} {
+			for _, pair := range [][2]string{{"ownCert", "ownCertBare"}, {"delegNoEku", "delegNoEkuBare"}, {"strangerEmbedded", "stranger"}, {"delegGood", "delegNoEkuBare"}} {
+				cfgs = append(cfgs, ocspCfg(strict, dur, "absent", []string{pair[0], pair[1]}, nil))
+				sw := ocspCfg(strict, dur, "absent", []string{pair[0]}, nil)
+				sw.Alt = map[string][]string{"cA": {pair[1]}, "cB": {}}
+				cfgs = append(cfgs, sw)
+			}
+		}
+	}
+	gs, res := exportOcspGraphs(c, cfgs, 0, 3, "absolute", "issuer")
 	c.Set("states", res.Distinct)
 	var trans int64
 	walks := 0
 	for i, g := range gs {
 		trans += int64(len(g.Edges))
 		cfg := cfgs[i]
-		g.AllPaths(2, func(p []*graph.Edge) {
-			if len(p) != 2 || c.Violations() > 12 {
+		depth := 2
+		if cfg.Alt != nil {
+			depth = 3
+		}
+		g.AllPaths(depth, func(p []*graph.Edge) {
+			if len(p) != depth || c.Violations() > 12 {
 				return
 			}
-			var op0, op1 []any
-			json.Unmarshal(p[0].Op, &op0)
-			json.Unmarshal(p[1].Op, &op1)
-			if op0[0] != "query" || op1[0] != "query" || op0[2] != "cA" || op1[2] != "cA" {
+			for _, e := range p {
+				var op []any
+				json.Unmarshal(e.Op, &op)
+				if op[0] == "flip" || (op[0] == "query" && op[2] != "cA") || (op[0] == "switch" && op[1] != "cA") {
+					return
+				}
+			}
+			if cfg.Alt != nil && opName(p[1]) != "switch" {
 				return
 			}
 			runOcspWalk(c, cfg, append([]*graph.Edge(nil), p...), c.Seed*104729+int64(walks), predC05)
